@@ -682,5 +682,12 @@ def r10_unbounded(ctx):
     parsershape.check_parser_init(ctx, 'R10.11')
 
 
-RULES = [('R10.12', r10_multi_ports), ('R10.11', r10_unbounded), ('R10.10', r10_shared_args), ('R10.8', r10_exec), ('R10.9', r10_abandoned), ('R10.1', r10_1), ('R10.2', r10_2), ('R10.3', r10_3), ('R10.4', r10_4), ('R10.5', r10_5), ('R10.6', r10_6), ('R10.7', r10_7)]
+def r10_socket_iteration(ctx):
+    """Received exactly once - also the messages that arrive together with the end of the stream: a socket port that closes
+    itself inside a receive call still hands out every complete message it took in (shared with C18 R18.1)."""
+    from . import c18
+    ctx.borrow(c18.r18_1, 'R10.13')
+
+
+RULES = [('R10.13', r10_socket_iteration), ('R10.12', r10_multi_ports), ('R10.11', r10_unbounded), ('R10.10', r10_shared_args), ('R10.8', r10_exec), ('R10.9', r10_abandoned), ('R10.1', r10_1), ('R10.2', r10_2), ('R10.3', r10_3), ('R10.4', r10_4), ('R10.5', r10_5), ('R10.6', r10_6), ('R10.7', r10_7)]
 THOROUGH_RULES = [('R10-backends', r10_backends)]
